@@ -728,7 +728,25 @@ pub fn gen_pipeline(opts: &Opts) -> Vec<PipeCase> {
             reqs.push(PipeReq { method, path, header });
         }
         let start_via = rng.below(3) as u8;
-        out.push(PipeCase { chain, eps: base.eps, policy_max, reqs, start_via });
+        let mut eps = base.eps;
+        let mut policy_max = policy_max;
+        // one case in eight: an unversioned table followed by a version-restricted
+        // declaration that CLASHES with its first endpoint (same path and method)
+        // and is therefore refused, served by an unversioned server: a refused
+        // declaration leaves no trace, so the server must start.  (Today the
+        // refusal is a panic and the case ends at registration; were it ever
+        // reported through the Result, the history would go on.)
+        if rng.chance(1, 8) && !eps.is_empty() {
+            for e in eps.iter_mut() {
+                e.range = RangeSpec { kind: "all".into(), a: 0, b: 0 };
+            }
+            let mut clash = eps[0].clone();
+            clash.id = "clash".into();
+            clash.range = RangeSpec { kind: "from".into(), a: 1, b: 0 };
+            eps.push(clash);
+            policy_max = None;
+        }
+        out.push(PipeCase { chain, eps, policy_max, reqs, start_via });
     }
     out
 }
